@@ -725,6 +725,15 @@ Definition truncated (k : nat) (fs : list failure) : bool :=
   | None => false
   end.
 
+(* the F32 class of a load, as asked by the judge of the correspondence (props/C17.py): None = the load does not get as far
+   as a validation report (another error) or there is no cap *)
+Definition validate_class (a : arch) (pl : pols) (max : N) (t : fty) (d : doc) : option bool :=
+  if N.eqb max 0 then None
+  else match load_recording a pl t d with
+       | Ok (_, fs) => Some (truncated (N.to_nat max) fs)
+       | Exc _ => None
+       end.
+
 Theorem capped_outside k fs c : cut k fs = Some c -> truncated k fs = false -> capped_report k fs (group c).
 Proof.
   intros H Ht. pose proof (capped_actual k fs c H) as [Hk Hm].
